@@ -61,6 +61,7 @@ def execute(ops):
     from ml_pipeline_engine.parallelism import process_pool_registry
     from ml_pipeline_engine.parallelism import threads_pool_registry
     objs = {}
+    charts = {}      # one chart object per pipeline kind for the whole history: later runs re-use it
 
     def get(o):
         if o not in objs:
@@ -114,7 +115,7 @@ def execute(ops):
                 o['reply'] = name_of(process_pool_registry.get_manager())
             elif op == 'run':
                 prog = programs.normalise(pipeline(o['needT'], o['needP']))
-                lines = realloop.run_job({'prog': prog, 'seed': 1}, False)
+                lines = realloop.run_job({'prog': prog, 'seed': 1}, False, cache=charts)
                 starts = sum(1 for x in lines if x['e'] == 'BodyStart')
                 ret = [x for x in lines if x['e'] == 'RunReturn']
                 if not ret:
